@@ -57,6 +57,27 @@ def generate(ctx):
         for kp in common.keypaths_for(ctx, v, n=5):
             ctx.add('get_by_keypath %s %s' % (e, common.keypath_text(kp)), meta=('kp', v, kp))
             ctx.count('keypath_len', len(kp))
+    # the byte walkers on buffers that are NOT valid encodings (prefixes, one byte changed): C05 says nothing about
+    # them, but the offset-faithful model (Walk.v) does, including where an index expression panics; this stream
+    # only feeds the correspondence tie, so that the model the C05_bytes_* theorems are about is the code's arithmetic
+    small = [v for v in ds if len(gen.enc(v)) <= 120]
+    for v in r.sample(small, min(len(small), ctx.scale(120, 3000))):
+        e = gen.enc(v)
+        muts = [e[:i] for i in range(len(e))] if len(e) <= 40 else [e[:r.randrange(len(e))] for _ in range(12)]
+        for _ in range(12):
+            i = r.randrange(len(e))
+            muts.append(e[:i] + bytes([r.choice([0, 1, 4, 0x10, 0x20, 0x40, 0x50, 0x7f, 0x80, 0xff, e[i] ^ 1, e[i] ^ 0x10, (e[i] + 1) & 0xff])]) + e[i + 1:])
+        ks = common.key_variants(ctx, v)
+        kps = common.keypaths_for(ctx, v, n=2)
+        for m in muts:
+            h = gen.hexarg(m)
+            ctx.add('array_length %s' % h, kind='malformed')
+            ctx.add('get_by_index %s %d' % (h, r.randrange(0, 4)), kind='malformed')
+            ctx.add('get_by_name %s %s %d' % (h, gen.hexarg(r.choice(ks)), r.randrange(2)), kind='malformed')
+            ctx.add('get_by_keypath %s %s' % (h, common.keypath_text(r.choice(kps))), kind='malformed')
+            for op in ('object_keys', 'object_each', 'array_values'):
+                if r.random() < 0.5:
+                    ctx.add('%s %s' % (op, h), kind='malformed')
 
 
 def judge(ctx):
